@@ -21,7 +21,7 @@
 use std::collections::BTreeMap;
 use std::io::{BufRead, BufReader};
 use std::panic::{AssertUnwindSafe, catch_unwind};
-use std::sync::atomic::{AtomicU64, AtomicUsize, Ordering};
+use std::sync::atomic::{AtomicBool, AtomicU64, AtomicUsize, Ordering};
 use std::sync::{Arc, Mutex};
 use std::time::{Duration, Instant};
 
@@ -60,6 +60,12 @@ fn parse_opts() -> Opts {
     }
     o
 }
+
+/// set once enough failing runs were collected: the remaining behaviours are skipped (a broken
+/// tree makes most soft stops hang, and every hang costs its full deadline)
+static ENOUGH: AtomicBool = AtomicBool::new(false);
+static FAILING_RUNS: AtomicUsize = AtomicUsize::new(0);
+const MAX_FAILING_RUNS: usize = 48;
 
 struct Viol {
     class: String,
@@ -326,7 +332,8 @@ fn run_one(idx: u64, line: &Value, opts: &Opts, port: u16, stats: &mut Stats) ->
             first_soft.map(|p| ids[p].clone())
         };
         if let Some(sid) = sid {
-            collect(&mut w, std::slice::from_ref(&sid), &mut got, Duration::from_millis(opts.wait_ms.max(5000)));
+            let patience = if out.is_empty() { opts.wait_ms.max(5000) } else { 1500 };
+            collect(&mut w, std::slice::from_ref(&sid), &mut got, Duration::from_millis(patience));
             let rs = got.get(&sid).cloned().unwrap_or_default();
             let terms: Vec<&WorkerResponse> = rs.iter().filter(|r| terminal(r)).collect();
             let procs = rs.len() - terms.len();
@@ -344,7 +351,8 @@ fn run_one(idx: u64, line: &Value, opts: &Opts, port: u16, stats: &mut Stats) ->
             }
         }
     }
-    match w.join_within(Duration::from_millis(opts.wait_ms.max(5000))) {
+    let patience = if out.is_empty() { opts.wait_ms.max(5000) } else { 1500 };
+    match w.join_within(Duration::from_millis(patience)) {
         Ok(true) => {}
         Ok(false) => viol(&mut out, "worker-hang", json!({"what": "worker thread still running after the stop"})),
         Err(p) => viol(&mut out, "panic:worker", json!({"panic": p})),
@@ -410,6 +418,7 @@ fn main() {
     let next = Arc::new(AtomicUsize::new(0));
     let results: Arc<Mutex<Vec<(usize, Vec<Viol>)>>> = Arc::new(Mutex::new(Vec::new()));
     let totals: Arc<[AtomicU64; 5]> = Arc::new(Default::default());
+    let done = Arc::new(AtomicUsize::new(0));
     let opts = Arc::new(opts);
     let t0 = Instant::now();
     let mut handles = Vec::new();
@@ -419,10 +428,11 @@ fn main() {
         let results = results.clone();
         let totals = totals.clone();
         let opts = opts.clone();
+        let done = done.clone();
         handles.push(std::thread::spawn(move || {
             loop {
                 let i = next.fetch_add(1, Ordering::SeqCst);
-                if i >= lines.len() {
+                if i >= lines.len() || ENOUGH.load(Ordering::SeqCst) {
                     break;
                 }
                 let mut stats = Stats::default();
@@ -438,7 +448,11 @@ fn main() {
                 totals[4].fetch_add(stats.soft_stops, Ordering::Relaxed);
                 if !v.is_empty() {
                     results.lock().unwrap().push((i, v));
+                    if FAILING_RUNS.fetch_add(1, Ordering::SeqCst) + 1 >= MAX_FAILING_RUNS {
+                        ENOUGH.store(true, Ordering::SeqCst);
+                    }
                 }
+                done.fetch_add(1, Ordering::SeqCst);
             }
         }));
     }
@@ -467,7 +481,8 @@ fn main() {
         })
         .collect();
     vh::util::emit(&json!({
-        "kind": "summary", "lines": total_lines, "runs": lines.len(), "violations": n_viol, "classes": classes,
+        "kind": "summary", "lines": total_lines, "runs": done.load(Ordering::SeqCst), "selected": lines.len(),
+        "aborted": ENOUGH.load(Ordering::SeqCst), "violations": n_viol, "classes": classes,
         "requests": totals[0].load(Ordering::Relaxed), "responses": totals[1].load(Ordering::Relaxed),
         "probes": totals[2].load(Ordering::Relaxed), "hook_events": totals[3].load(Ordering::Relaxed),
         "soft_stops": totals[4].load(Ordering::Relaxed), "hooked": hooked,
